@@ -11,17 +11,19 @@ N_CASES = {"quick": 320, "thorough": 6000, "search": 3000}
 SHARD = 80
 RULE = ("seeded streams: rectangular_prism (dyadic origin/size, power-of-two scales 2^-10..2^10, thorough 2^-30..2^30 "
         "~ 1e-9..1e9), cube (float sizes; int / float32 / str / None sizes), triangular_prism (non-collinear dyadic "
-        "triangles in arbitrary orientation, float heights; non-float heights; exactly collinear triangles); every case "
+        "triangles in arbitrary orientation incl. thin nearly collinear ones (2^-8..2^-20), float heights; non-float heights; exactly collinear triangles); every case "
         "observes the indexed and the flattened return value; non-trivial = the call returned a surface; distinct by hash")
 TRUSTED = ["Coq 8.16.1 kernel, vm_compute for the correspondence evaluation and the finite face-table claims",
            "axioms (Print Assumptions): ClassicalDedekindReals.sig_forall_dec, sig_not_dec, "
            "FunctionalExtensionality.functional_extensionality_dep, Classical_Prop.classic (all Coq stdlib Reals)",
            "tools/symtrace.py tracing translator + numpy shim (re-validated numerically each run)",
-           "coq/Agree.v agreement relation (relative tolerance 1e-9 w.r.t. the input magnitude, integers exact)",
+           "coq/corr/K_C16.v agreement relation close_rel (1e-9 relative to max(input magnitude, |a|, |b|), no absolute floor; "
+           "integers and exception classes exact)",
            "NumPy, vg"]
 CASE_IMPORTS = [("PW.model", "M_shapes")]
 # theorems of props/C16.v that hold by the definition of the model (their content is carried by ties / correspondence)
-DEFINITIONAL = ["C16_flattened_is_take", "C16_tri_flattened_is_take", "C16_nonfloat_rejected", "C16_float_accepted"]
+DEFINITIONAL = ["C16_flatten_rows", "C16_flattened_is_take", "C16_tri_flattened_is_take", "C16_nonfloat_rejected",
+                "C16_float_accepted"]
 ASSUMPTIONS = ["theorems are about exact real arithmetic; binary64 rounding is covered only by the tolerance of the "
                "correspondence check on sampled inputs",
                "cube and triangular_prism test `isinstance(x, float)`: while tracing, `isinstance` is shadowed in the module "
@@ -149,7 +151,7 @@ Proof.
   split; [apply tri_volume; exact H|]. split; [apply tri_surface_area; [exact H | lra]|].
   split; [apply base_area_pos; exact H | apply tri_outward; [exact H | lra]].
 Qed.""" % {"faces": _faces_coq(tri_faces), "P1": P1, "P2": P2, "P3": P3, "sunf": _SUNF, "gen": _GEN},
-        imports=_IMPORTS, perturb=1e-3,
+        imports=_IMPORTS, perturb=1e-3, validate_n=48,
         expect_structure={"tuple": [{"shape": [6, 3], "data": e6}, {"shape": [8, 3], "dtype": "int64", "data": TRI_FACES}]}))
 
     # ---- triangular_prism, flattened -----------------------------------------------------------------------------
@@ -160,7 +162,7 @@ Qed.""" % {"faces": _faces_coq(tri_faces), "P1": P1, "P2": P2, "P3": P3, "sunf":
   {T} ROps {vars} = tri_flat_list (flatten (tri_prism_vertices ROps %(P1)s %(P2)s %(P3)s h0) tri_prism_faces).
 Proof. intros. unfold {T}. %(sunf)s; unfold nfrac; rops. %(gen)s.
   list_eq ltac:(first [reflexivity | ring | (unfold Rdiv; ring)]). Qed.""" % {"P1": P1, "P2": P2, "P3": P3, "sunf": _SUNF, "gen": _GEN},
-        imports=_IMPORTS, expect_structure={"shape": [8, 3, 3], "data": ["e"] * 72}))
+        imports=_IMPORTS, validate_n=48, expect_structure={"shape": [8, 3, 3], "data": ["e"] * 72}))
 
     # ---- the isinstance(x, float) rejection, pinned at trace time on concrete non-float arguments (NO isinstance shadowing
     #      here): outcome 1 = ValueError, 2 = another exception, 0 = accepted; fail-closed comparison of the outcome ----
@@ -180,29 +182,36 @@ Proof. intros. unfold {T}. %(sunf)s; unfold nfrac; rops. %(gen)s.
         "cube_rejects_int", {"o": [1.0, 2.0, 3.0]},
         outcome(lambda o: cube(o, 2, ret_unique_vertices_and_faces=True)),
         """Lemma {T}_ok : forall {vars} : R, cube ROps %(O)s (PyInt 2) = Raise ValueError.
-Proof. reflexivity. Qed.""" % {"O": O}, imports=_IMPORTS, expect_structure=rej))
+Proof. reflexivity. Qed.""" % {"O": O}, imports=_IMPORTS, expect_structure=rej, validate_n=0))
     ks.append(Kernel(
         "cube_rejects_float32", {"o": [1.0, 2.0, 3.0]},
         outcome(lambda o: cube(o, np.float32(2.0))),
         """Lemma {T}_ok : forall {vars} : R, cube ROps %(O)s PyOther = Raise ValueError.
-Proof. reflexivity. Qed.""" % {"O": O}, imports=_IMPORTS, expect_structure=rej))
+Proof. reflexivity. Qed.""" % {"O": O}, imports=_IMPORTS, expect_structure=rej, validate_n=0))
     ks.append(Kernel(
         "tri_rejects_int", {"p": tri_pts},
         outcome(lambda p: triangular_prism(p[0], p[1], p[2], 2, ret_unique_vertices_and_faces=True)),
         """Lemma {T}_ok : forall {vars} : R, triangular_prism ROps %(P1)s %(P2)s %(P3)s (PyInt 2) = Raise ValueError.
-Proof. reflexivity. Qed.""" % {"P1": P1, "P2": P2, "P3": P3}, imports=_IMPORTS, expect_structure=rej))
+Proof. reflexivity. Qed.""" % {"P1": P1, "P2": P2, "P3": P3}, imports=_IMPORTS, expect_structure=rej, validate_n=0))
     ks.append(Kernel(
         "tri_rejects_float32", {"p": tri_pts},
         outcome(lambda p: triangular_prism(p[0], p[1], p[2], np.float32(2.0))),
         """Lemma {T}_ok : forall {vars} : R, triangular_prism ROps %(P1)s %(P2)s %(P3)s PyOther = Raise ValueError.
-Proof. reflexivity. Qed.""" % {"P1": P1, "P2": P2, "P3": P3}, imports=_IMPORTS, expect_structure=rej))
+Proof. reflexivity. Qed.""" % {"P1": P1, "P2": P2, "P3": P3}, imports=_IMPORTS, expect_structure=rej, validate_n=0))
     # ... and a float IS accepted (outcome 0) without any shadowing
     ks.append(Kernel(
         "cube_accepts_float", {"o": [1.0, 2.0, 3.0]},
         outcome(lambda o: cube(o, 2.0)),
         """Lemma {T}_ok : forall {vars} s : R, exists r, cube ROps %(O)s (PyFloat s) = Ok r.
 Proof. intros. eexists. reflexivity. Qed.""" % {"O": O}, imports=_IMPORTS,
-        expect_structure={"shape": [1], "dtype": "int64", "data": [0]}))
+        expect_structure={"shape": [1], "dtype": "int64", "data": [0]}, validate_n=0))
+    ks.append(Kernel(
+        "tri_accepts_float", {"p": tri_pts},
+        outcome(lambda p: triangular_prism(p[0], p[1], p[2], 2.0)),
+        """Lemma {T}_ok : forall {vars} h : R, noncollinear %(P1)s %(P2)s %(P3)s ->
+  exists r, triangular_prism ROps %(P1)s %(P2)s %(P3)s (PyFloat h) = Ok r.
+Proof. intros {vars} h H. eexists. apply (float_accepted %(P1)s %(P1)s %(P2)s %(P3)s h h H). Qed.""" % {"P1": P1, "P2": P2, "P3": P3},
+        imports=_IMPORTS, expect_structure={"shape": [1], "dtype": "int64", "data": [0]}, validate_n=0))
     return ks
 
 
@@ -215,7 +224,7 @@ def _scales(rng, tier):
     return 2.0 ** so, 2.0 ** ss
 
 
-NONFLOAT = ["int", "int64", "float32", "str", "none"]
+NONFLOAT = ["int", "int64", "float32", "str", "none", "bool"]
 
 
 def _cross(a, b):
@@ -250,7 +259,8 @@ def gen_cases(rng, n, tier):
             cases.append(c)
         elif u < 0.5:
             if b < 0.7:
-                c = {"kind": "cube", "origin": origin, "size_kind": "float", "size": rng.randint(1, 16) / 2 * ss}
+                c = {"kind": "cube", "origin": origin, "size_kind": rng.choice(["float", "float", "float64"]),
+                     "size": rng.randint(1, 16) / 2 * ss}
                 if idt:
                     c.update(kind="cube_intdtype", origin=_int_vec(rng), origin_dtype="int64", size=rng.randint(1, 40) / 4)
                 cases.append(c)
@@ -264,8 +274,14 @@ def gen_cases(rng, n, tier):
                     p1, e1, e2 = _int_vec(rng), _int_vec(rng, -6, 6), _int_vec(rng, -6, 6)
                 if any(_cross(e1, e2)):
                     break
+            thin = (not idt) and rng.random() < 0.15
+            if thin:   # nearly collinear base: e2 = k e1 + 2^-m e3, everything dyadic (cross product still exact)
+                e3 = e2
+                kk, mm = rng.choice([1.0, 2.0, -1.0, 0.5, -3.0]), rng.randint(8, 20)
+                e2 = [kk * a + 2.0 ** -mm * c for a, c in zip(e1, e3)]
+                origin = [x * min(so, ss * 16) / so for x in origin]
             if b < 0.72:
-                kind, hk, h = "tri", "float", rng.randint(1, 16) / 4 * ss
+                kind, hk, h = ("tri_thin" if thin else "tri"), rng.choice(["float", "float", "float64"]), rng.randint(1, 16) / 4 * ss
             elif b < 0.87:
                 kind, hk, h = "tri_nonfloat", rng.choice(NONFLOAT), rng.randint(1, 5)
             else:  # exactly collinear (outside the property; the code raises ValueError from the Plane constructor)
@@ -275,7 +291,7 @@ def gen_cases(rng, n, tier):
             raw = (p1, [a + c for a, c in zip(p1, e1)], [a + c for a, c in zip(p1, e2)])
             if idt:
                 c = {"kind": kind + ("_intdtype" if kind == "tri" else ""), "points": [list(p) for p in raw], "points_dtype": "int64",
-                     "height_kind": hk, "height": h if hk != "float" else rng.randint(1, 40) / 4}
+                     "height_kind": hk, "height": h if hk not in ("float", "float64") else rng.randint(1, 40) / 4}
             else:
                 pts = [[x * ss + o for x, o in zip(p, origin)] for p in raw]
                 c = {"kind": kind, "points": pts, "height_kind": hk, "height": h}
@@ -284,7 +300,7 @@ def gen_cases(rng, n, tier):
 
 
 def _pyval(kind, v):
-    return {"float": lambda: float(v), "int": lambda: int(v), "int64": lambda: np.int64(v), "float32": lambda: np.float32(v),
+    return {"float": lambda: float(v), "float64": lambda: np.float64(v), "bool": lambda: bool(v), "int": lambda: int(v), "int64": lambda: np.int64(v), "float32": lambda: np.float32(v),
             "str": lambda: str(v), "none": lambda: None}[kind]()
 
 
@@ -344,7 +360,7 @@ def run_impl(c):
 
 
 def _pynum(kind, v):
-    if kind == "float":
+    if kind in ("float", "float64"):   # np.float64 is a subclass of float
         return "(PyFloat %s)" % q(v)
     if kind == "int":
         return "(PyInt (%d)%%Z)" % int(v)
